@@ -788,3 +788,63 @@ func ToggleAtomic(r *gen.Rng, s *Schema) *Schema {
 	}
 	return c
 }
+
+// ---------------------------------------------------------------------------------------------
+// versioned schemas: one copy of every type per API version, struct field names carrying the version
+// as a suffix (except key fields), the root type named like the version — the layout the
+// renaming converter of merge/multiple_appliers_test.go expects.
+
+var keyFieldNames = map[string]bool{"name": true, "id": true, "port": true, "proto": true}
+
+func Versioned(base *Schema, versions []string) *Schema {
+	out := &Schema{Root: versions[0]}
+	for _, v := range versions {
+		c := base.Clone()
+		rename := func(n string) string {
+			if n == "root" {
+				return v
+			}
+			if len(n) > 2 && n[:2] == "__" {
+				return n // the deduced types are version independent
+			}
+			return n + "." + v
+		}
+		var fixRef func(r *Ref)
+		var fixAtom func(a *Atom)
+		fixRef = func(r *Ref) {
+			if r.Named != "" {
+				r.Named = rename(r.Named)
+			}
+			if r.Inline != nil {
+				fixAtom(r.Inline)
+			}
+		}
+		fixAtom = func(a *Atom) {
+			if a.List != nil {
+				fixRef(&a.List.Elem)
+			}
+			if a.Map != nil {
+				for i := range a.Map.Fields {
+					f := &a.Map.Fields[i]
+					if !keyFieldNames[f.Name] {
+						f.Name = f.Name + "_" + v
+					}
+					fixRef(&f.Type)
+				}
+				if a.Map.Elem != nil {
+					fixRef(a.Map.Elem)
+				}
+			}
+		}
+		for i := range c.Types {
+			t := c.Types[i]
+			if len(t.Name) > 2 && t.Name[:2] == "__" && v != versions[0] {
+				continue
+			}
+			fixAtom(&c.Types[i].Atom)
+			c.Types[i].Name = rename(t.Name)
+			out.Types = append(out.Types, c.Types[i])
+		}
+	}
+	return out
+}
